@@ -568,6 +568,8 @@ func runC13(c *runCtx) error {
 			c13Run(e, q, kvs, nil, batch, 2, true, "rejected")
 		}
 	}
+	// stream "batch-polls": every single Next() / Batch() call of a SELECT (harness/c13batch.go)
+	c13BatchStream(c, e, r)
 	e.m.Exhaustive = true
 	e.m.Notes = append(e.m.Notes, "exhaustive: every storage call index of every fault-free run is failed once")
 	return e.flush()
